@@ -43,9 +43,21 @@ type reqResult struct {
 }
 
 func (e *env) do(method string, chain []*node, extraQuery string) reqResult {
+	return e.doPath(method, chain, extraQuery, false)
+}
+
+// doPath: with escaped, the blobref in the URL path is written with percent-encoded characters (the
+// same resource, RFC 3986 section 2.3: "-" as %2D, the first hex digit as %XX).
+func (e *env) doPath(method string, chain []*node, extraQuery string, escaped bool) reqResult {
 	var sb strings.Builder
 	sb.WriteString(e.base())
-	sb.WriteString(chain[len(chain)-1].Ref)
+	ref := chain[len(chain)-1].Ref
+	if escaped {
+		if i := strings.IndexByte(ref, '-'); i >= 0 && i+1 < len(ref) {
+			ref = ref[:i] + "%2D" + fmt.Sprintf("%%%02X", ref[i+1]) + ref[i+2:]
+		}
+	}
+	sb.WriteString(ref)
 	sep := "?"
 	if len(chain) > 1 {
 		sb.WriteString("?via=")
@@ -112,6 +124,11 @@ func (e *env) checkGET(chain []*node, v verdict) *caseFail {
 		if r.code != 200 || !bytes.Equal(r.body, last.data) {
 			return &caseFail{fmt.Sprintf("valid chain %s (%s) is NOT served: HTTP %d body=%q; want 200 with the %d bytes of %s",
 				chainNames(chain), v.reason, r.code, trunc(r.body), len(last.data), last.Name)}
+		}
+		// the same resource addressed with percent-encoded characters in the path
+		if r2 := e.doPath("GET", chain, "", true); r2.code != 200 || !bytes.Equal(r2.body, last.data) {
+			return &caseFail{fmt.Sprintf("valid chain %s (%s) is served for the plain path but NOT when the blobref in the path is percent-encoded: HTTP %d body=%q",
+				chainNames(chain), v.reason, r2.code, trunc(r2.body))}
 		}
 		return nil
 	}
